@@ -292,11 +292,19 @@ def refined_reach(body, starts, blocked_edges=()):
             st.pop(dst, None)
             if rv['k'] == 'aggregate' and rv.get('agg') == 'adt' and strip_generics(rv['adt']) in ('core::result::Result', 'core::ops::control_flow::ControlFlow'):
                 st[dst] = 0 if rv['vname'] in ('Ok', 'Continue') else 1
+            elif rv['k'] == 'aggregate' and rv.get('agg') == 'adt' and strip_generics(rv['adt']) == 'core::task::poll::Poll' and rv.get('vname') == 'Ready' and rv['ops']:
+                # the output of an await-inlined helper (inline.inline_awaits) carries the helper's result through Poll::Ready
+                y = op_local(rv['ops'][0])
+                if y in st and st[y] in (0, 1):
+                    st[dst] = ('poll', st[y])
             elif rv['k'] == 'use':
                 pl = op_place(rv['op'])
                 if pl and not pl['p'] and pl['l'] in st:
                     st[dst] = st[pl['l']]
-            elif rv['k'] == 'discr' and not rv['pl']['p'] and rv['pl']['l'] in st:
+                elif pl and len(pl['p']) == 2 and isinstance(pl['p'][0], dict) and pl['p'][0].get('n') == 'Ready' and isinstance(pl['p'][1], dict) and pl['p'][1].get('f') == 0 \
+                        and isinstance(st.get(pl['l']), tuple) and st[pl['l']][0] == 'poll':
+                    st[dst] = st[pl['l']][1]
+            elif rv['k'] == 'discr' and not rv['pl']['p'] and st.get(rv['pl']['l']) in (0, 1):
                 st[dst] = ('d', st[rv['pl']['l']])
         t = blk['t']
         succs = list(body.succ(b))
